@@ -103,7 +103,7 @@ package compile
 //@   invariant 1 rangeindex >= -1 && rangeindex + 1 <= len(binds) && e.np == old(e.np) + 1 + 3 * (rangeindex + 1) && e.ns == old(e.ns) + rangeindex + 1 && tp(e, old(e.np)) == len(binds) && forall(j, 0, rangeindex + 1, layBinding(e, old(e.np) + 1 + 3 * j, old(e.ns) + j, binds[j]))
 //@   ensures e.np == old(e.np) + 1 + 3 * len(binds) && e.ns == old(e.ns) + len(binds) && layBindings(e, old(e.np), old(e.ns), binds)
 //@ func encoder.function
-//@   prop C17
+//@   prop C17 C08
 //@   modifies e.np, e.ns, e.p, e.s
 //@   invariant 1 rangeindex >= -1 && rangeindex + 1 <= len(fn.pclinetab) && e.np == old(e.np) + 6 + rangeindex + 1 && e.ns == old(e.ns) + 3 && layHead(e, old(e.np), old(e.ns), fn) && layPcl(e, old(e.np), fn, rangeindex + 1)
 //@   invariant 2 rangeindex >= -1 && rangeindex + 1 <= len(fn.Cells) && e.np == qCells(fn, old(e.np)) + 1 + rangeindex + 1 && e.ns == old(e.ns) + 3 + len(fn.Locals) && layHead(e, old(e.np), old(e.ns), fn) && layPcl(e, old(e.np), fn, len(fn.pclinetab)) && layBindings(e, qLocals(fn, old(e.np)), old(e.ns) + 3, fn.Locals) && layCells(e, old(e.np), fn, rangeindex + 1)
@@ -156,7 +156,7 @@ package compile
 //@   invariant 1 rangeindex >= -1 && rangeindex + 1 <= len(ints) && len(ints) == tp(d, old(d.ip)) && d.ip == old(d.ip) + 1 + rangeindex + 1 && freshobj(ints) && forall(j, 0, rangeindex + 1, ints[j] == tp(d, old(d.ip) + 1 + j))
 //@   ensures d.ip == old(d.ip) + 1 + len(result) && len(result) == tp(d, old(d.ip)) && forall(j, 0, len(result), result[j] == tp(d, old(d.ip) + 1 + j))
 //@ func decoder.function
-//@   prop C17
+//@   prop C17 C08
 //@   modifies d.ip, d.is, d.p, d.s
 //@   invariant 1 rangeindex >= -1 && rangeindex + 1 <= len(pclinetab) && len(pclinetab) == tp(d, old(d.ip) + 5) && freshobj(pclinetab) && d.ip == old(d.ip) + 6 + rangeindex + 1 && d.is == old(d.is) + 3 && layBinding(d, old(d.ip), old(d.is), id) && tp(d, old(d.ip) + 3) == len(doc) && ts(d, old(d.is) + 1) == strid(doc) && tp(d, old(d.ip) + 4) == len(code) && ts(d, old(d.is) + 2) == bytesid(code) && forall(j, 0, rangeindex + 1, wrapu16(tp(d, old(d.ip) + 6 + j)) == pclinetab[j])
 //@   ensures result != nil && d.ip == old(d.ip) + lenP(result) && d.is == old(d.is) + lenS(result)
